@@ -17,10 +17,26 @@ abort   (opt-in) a caller that interrupts a call (Ctrl-C, a time-out): now and t
         with copied arguments is run first and aborted by an exception raised from a trace hook after a
         drawn number of lines inside bct; the real call follows and is judged as usual.
 
+zerod   (always on, 10 % of the calls) a caller whose scalar options are 0-d arrays (np.asarray(0.3), values
+        read back from .npz / .mat files): a sacrificial call with copied arguments whose python int /
+        float options (never `seed`) are 0-d arrays; afterwards those arrays must hold their values
+        (an augmented assignment `p /= 2` on a parameter writes through to the caller's object).
+        Flag kind option_array_modified, clause OptionArraysIntact.
+strict  (opt-in, 15 % of the calls) a caller who runs with np.seterr(all='raise'): the real call runs under
+        np.errstate(all='raise'); a routine that computes x/0 or 0/0 outside an errstate of its own then
+        raises FloatingPointError instead of returning, which the driver's Returns clause reports.
+        Enabled only for the drivers whose routines are clean in this respect on the unchanged tree
+        (not: signed modularity, null models, randomizer_bin_und, flow_coef_bd - see DESIGN 7).
+ignore  (always on, 15 % of the calls) a caller who has silenced floating-point warnings: the real call
+        runs under np.errstate(all='ignore'); results must not depend on a warning being emitted.
+
+print   (always on) every worker runs with np.set_printoptions(threshold=5, edgeitems=2).
+
 Only functions looked up in the `bct` package namespace are wrapped (that is how the drivers call
 them); calls between bct's own modules are untouched.
 """
 import functools
+import os as _os
 import random
 import sys
 import types
@@ -30,7 +46,7 @@ import numpy as np
 HELD = []          # [(function name, array, snapshot or None)]
 FLAGS = []
 BUFS = {}
-MODE = dict(reuse=False, abort=False)
+MODE = dict(reuse=False, abort=False, strict_fp=False)
 RNG = random.Random(20260927)
 _INSTALLED = [False]
 _DEPTH = [0]
@@ -100,6 +116,50 @@ def _sacrifice(f, args, kw):
             mu._verif_sinks[:] = sinks
 
 
+def _zero_d_probe(name, f, args, kw):
+    import copy
+    import random as pyrandom
+    from bct.utils import miscellaneous_utilities as mu
+
+    def dup(v):
+        if isinstance(v, np.ndarray):
+            return v.copy()
+        try:
+            return copy.deepcopy(v)
+        except Exception:                    # noqa: BLE001
+            return v
+    watch = []
+
+    def opt(key, v):
+        if type(v) in (int, float) and key != "seed":
+            z = np.array(v)
+            watch.append((key, z, v))
+            return z
+        return dup(v)
+    a2 = [opt("arg%d" % i, a) if i else dup(a) for i, a in enumerate(args)]
+    k2 = {k: opt(k, v) for k, v in kw.items()}
+    if not watch:
+        return
+    gstate, pstate = np.random.get_state(), pyrandom.getstate()
+    sinks = list(getattr(mu, "_verif_sinks", []))
+    if hasattr(mu, "_verif_sinks"):
+        del mu._verif_sinks[:]
+    try:
+        f(*a2, **k2)
+    except BaseException as e:           # noqa: BLE001 - a routine may not take 0-d arrays: no verdict on that
+        if type(e).__name__ == "CallTimeout":
+            raise
+    finally:
+        np.random.set_state(gstate)
+        pyrandom.setstate(pstate)
+        if hasattr(mu, "_verif_sinks"):
+            mu._verif_sinks[:] = sinks
+    for key, z, v in watch:
+        if z.shape != () or not (z == v):
+            FLAGS.append(dict(kind="option_array_modified", of=name + ":" + key, modified=1,
+                              earlier_job="value %r became %r" % (v, z.tolist() if z.size < 5 else "...")))
+
+
 def _wrap(name, f):
     @functools.wraps(f)
     def w(*args, **kw):
@@ -113,6 +173,9 @@ def _wrap(name, f):
                 HELD[:] = [h for h in HELD if not any(np.may_share_memory(h[1], a) for a in ins)]
             if MODE["abort"] and RNG.random() < 0.03:
                 _sacrifice(f, args, kw)
+            if RNG.random() < 0.10:
+                _zero_d_probe(name, f, args, kw)
+            quiet = RNG.random() < 0.15
             back = None
             if MODE["reuse"] and args and isinstance(args[0], np.ndarray) and args[0].ndim == 2 \
                     and args[0].flags.c_contiguous and args[0].flags.owndata and args[0].flags.writeable \
@@ -125,7 +188,15 @@ def _wrap(name, f):
                 np.copyto(buf, A)
                 args = (buf,) + tuple(args[1:])
                 back = (A, buf)
-            res = f(*args, **kw)
+            if _os.environ.get("VERIF_PROBE_RAISE") or (MODE["strict_fp"] and not quiet and RNG.random() < 0.15):
+                # a caller who runs with np.seterr(all='raise') (VERIF_PROBE_RAISE: every call, developer use)
+                with np.errstate(all="raise"):
+                    res = f(*args, **kw)
+            elif quiet:
+                with np.errstate(all="ignore"):
+                    res = f(*args, **kw)
+            else:
+                res = f(*args, **kw)
             if back is not None:
                 A, buf = back
                 np.copyto(A, buf)                 # in-place effects belong to the caller's array
@@ -149,10 +220,13 @@ def _wrap(name, f):
     return w
 
 
-def install(reuse=False, abort=False):
-    MODE["reuse"], MODE["abort"] = bool(reuse), bool(abort)
+def install(reuse=False, abort=False, strict_fp=False):
+    MODE["reuse"], MODE["abort"], MODE["strict_fp"] = bool(reuse), bool(abort), bool(strict_fp)
     if _INSTALLED[0]:
         return
+    # a caller with short print options (a common notebook setting): the text form of an array is then
+    # abbreviated from 6 items on - code that keys a cache or a comparison on str(array) shows
+    np.set_printoptions(threshold=5, edgeitems=2)
     import bct
     for name in dir(bct):
         f = getattr(bct, name)
@@ -176,6 +250,8 @@ def end_of_job(job):
                                   earlier_job=_short(_PREV_JOB[0])))
     HELD[:] = keep[-24:]
     _PREV_JOB[0] = job
+    flags += FLAGS
+    del FLAGS[:]
     return flags
 
 
